@@ -1,4 +1,4 @@
-CONSTANTS DS = 16  DE = 24  Mut = "none"
+CONSTANTS DS = 16  DE = 24  Mut = "none"  MaxFill = 2
 SPECIFICATION Spec
 INVARIANTS MigrationFaithful NonDestructive FailureClean AmbiguityRule MigrateTotal
 CHECK_DEADLOCK FALSE
